@@ -672,17 +672,23 @@ def deep_clone(value: Any) -> Any:
     """
     import copy
 
-    # For lists, check if they contain PropertyTreeNode objects
+    # For lists, PropertyTreeNode objects keep their identity (like tasks in depends) - also when
+    # they are wrapped in a dict of edge options ({'task': <Task>, 'gapduration': ...}): a deep
+    # copy would clone the referenced task, and the clone is never scheduled
     if isinstance(value, list):
-        if value and hasattr(value[0], "propertySet"):
-            # This is a list of PropertyTreeNode objects (like tasks in depends)
-            # Do a shallow copy to preserve object identity
-            return list(value)
-        else:
-            # Regular list, deep copy
-            return copy.deepcopy(value)
+        return [_clone_item(item) for item in value]
 
     return copy.deepcopy(value)
+
+
+def _clone_item(item: Any) -> Any:
+    import copy
+
+    if hasattr(item, "propertySet"):
+        return item
+    if isinstance(item, dict):
+        return {key: (val if hasattr(val, "propertySet") else copy.deepcopy(val)) for key, val in item.items()}
+    return copy.deepcopy(item)
 
 
 class AttributeBase:
